@@ -97,9 +97,48 @@ class WriterView:
         return "writer"
 
 
+def _ev_int(t, env):
+    """evaluate an integer term under env: {atom term: int}; None if outside the evaluator"""
+    if t in env:
+        return env[t]
+    if t[0] == "lit" and t[1] == "int":
+        return t[2]
+    if t[0] == "cast":
+        return _ev_int(t[2], env)
+    if t[0] == "lin":
+        acc = t[2]
+        for a, c in t[1]:
+            v = _ev_int(a, env)
+            if v is None:
+                return None
+            acc += c * v
+        return acc
+    if t[0] == "bin" and t[1] in ("Rem", "Add", "Sub", "Mul", "BitAnd"):
+        a, b = _ev_int(t[2], env), _ev_int(t[3], env)
+        if a is None or b is None or (t[1] == "Rem" and b == 0):
+            return None
+        return {"Rem": lambda: a % b, "Add": lambda: a + b, "Sub": lambda: a - b, "Mul": lambda: a * b, "BitAnd": lambda: a & b}[t[1]]()
+    return None
+
+
+def _ev_cond(a, env):
+    if a[0] == "eq":
+        x, y = _ev_int(a[1], env), _ev_int(a[2], env)
+        return None if x is None or y is None else x == y
+    if a[0] == "lt":
+        x, y = _ev_int(a[1], env), _ev_int(a[2], env)
+        return None if x is None or y is None else x < y
+    if a[0] == "not":
+        r = _ev_cond(a[1], env)
+        return None if r is None else not r
+    return None
+
+
 def helper_shape(fx, path):
-    """canonical shape of a local sink helper: list of emitted pieces on its success path:
-    ('bytes', <param index>) | ('pad', N) ; None if not recognised"""
+    """canonical shape of a local sink helper: list of emitted pieces on its success path(s):
+    ('bytes', <param index>) | ('pad', N) ; None if not recognised.
+    The padding length may be any expression (and any case split) over len(section) % N: it is decided by evaluating it for
+    every residue r in 0..N and comparing with (N - r) % N (finite, exact)."""
     b = fx.bodies[path]
     sy = S.Sym(fx)
     try:
@@ -109,38 +148,75 @@ def helper_shape(fx, path):
     names = [prm["pat"]["name"] for prm in b["params"] if prm.get("pat") and prm["pat"]["k"] == "Bind"]
     succ = []
     for st, (k, v) in res:
-        # success = last effect's result returned, all previous is Ok
-        if all(p for a, p in st.conds):
-            succ.append((st, v))
-    if len(succ) != 1:
+        # success = every sink call returned Ok (other conditions are case splits over the section length)
+        io_conds = [(a, p) for a, p in st.conds if a[0] == "is" and a[2] == "Ok"]
+        if all(p for a, p in io_conds):
+            succ.append((st, v, [(a, p) for a, p in st.conds if not (a[0] == "is" and a[2] == "Ok")]))
+    if not succ:
         return None
-    st, v = succ[0]
-    pieces = []
-    for e in st.effects:
-        if e[0] != "call":
-            return None
-        if not e[1].endswith("Write::write_all"):
-            return None
-        arg = e[2][1]
-        if arg[0] == "in" and arg[1] in names:
-            pieces.append(("bytes", names.index(arg[1])))
-            continue
-        if arg[0] == "call" and arg[1] == "std::ops::Index::index":
-            arg = ("index",) + tuple(arg[2])
-        if arg[0] == "index" and arg[1][0] == "const" and arg[2][0] == "adt" and arg[2][2] == "RangeTo":
-            zeros = arg[1][2] or ""
-            m = re.match(r'^\*?b"((\\x00)+)"$', zeros)
-            end = dict(arg[2][3]).get("end")
-            # end = (N - len(section) % N) % N
-            if m and end and end[0] == "bin" and end[1] == "Rem" and end[3][0] == "lit":
-                N = end[3][2]
-                inner = end[2]
-                want = S.lin_norm([(("bin", "Rem", ("call", "core::slice::len", (("in", names[1] if len(names) > 1 else "?"),)), lit_int(N)), -1)], N)
-                if inner == want and len(m.group(1)) // 4 >= N:
-                    pieces.append(("pad", N))
+    shapes = []
+    for st, v, arith in succ:
+        pieces = []
+        for e in st.effects:
+            if e[0] != "call" or not e[1].endswith("Write::write_all"):
+                return None
+            arg = e[2][1]
+            if arg[0] == "in" and arg[1] in names:
+                pieces.append(("bytes", names.index(arg[1])))
+                continue
+            if arg[0] == "call" and arg[1] == "std::ops::Index::index":
+                arg = ("index",) + tuple(arg[2])
+            if arg[0] == "index" and arg[1][0] == "const" and arg[2][0] == "adt" and arg[2][2] == "RangeTo":
+                zeros = arg[1][2] or ""
+                m = re.match(r'^\*?b"((\\x00)+)"$', zeros)
+                end = dict(arg[2][3]).get("end")
+                if m and end is not None:
+                    pieces.append(("padexpr", end, len(m.group(1)) // 4))
                     continue
+            return None
+        shapes.append((pieces, arith))
+    # all success paths: same piece kinds
+    kinds = {tuple(p[0] if p[0] != "bytes" else p for p in pcs) for pcs, _ in shapes}
+    if len(kinds) != 1:
         return None
-    return pieces
+    npieces = len(shapes[0][0])
+    out = []
+    for i in range(npieces):
+        pc0 = shapes[0][0][i]
+        if pc0[0] == "bytes":
+            out.append(pc0)
+            continue
+        # the section this padding follows: the nearest preceding bytes piece
+        prev = [p for p in shapes[0][0][:i] if p[0] == "bytes"]
+        if not prev:
+            return None
+        ln = ("call", "core::slice::len", (("in", names[prev[-1][1]]),))
+        N = ALIGN
+        for r in range(N):
+            # any len with len % N == r behaves alike as long as the expressions only use len through `len % N`; use two
+            # representatives to reject expressions that depend on len otherwise
+            vals = set()
+            for rep_len in (r, r + 5 * N):
+                env = {ln: rep_len}
+                hit = []
+                for pcs, arith in shapes:
+                    cs = [(_ev_cond(a, env), p) for a, p in arith]
+                    if any(c is None for c, p in cs):
+                        return None
+                    if all(c == p for c, p in cs):
+                        hit.append(pcs)
+                if len(hit) != 1:
+                    return None
+                v = _ev_int(hit[0][i][1], env)
+                if v is None:
+                    return None
+                vals.add(v)
+            if vals != {(N - r) % N}:
+                return None
+        if min(p[i][2] for p, _ in shapes) < N - 1:
+            return None
+        out.append(("pad", N))
+    return out
 
 
 def check_emission(fx, rep, rule, wv):
